@@ -148,6 +148,33 @@ def check_shape(g, acc):
     r1, r2 = eq(A, C), eq(C, A)
     if r1 is not True or r2 is not True:
         acc.add_problem(problem("copy_not_equal", dict(case0, difference="copy"), expected=True, observed=[r1, r2]))
+    # ... also the copy of every inner node equals that node (tail included)
+    for path_, _ in gtree.walk(g):
+        if path_:
+            inner = node_at(A, path_)
+            ci = inner.copy()
+            n_pairs += 1
+            r1, r2 = eq(inner, ci), eq(ci, inner)
+            if r1 is not True or r2 is not True:
+                acc.add_problem(problem("copy_not_equal", dict(case0, difference="copy of an inner node", at=list(path_)), expected=True,
+                                        observed=[r1, r2], of="inner-node"))
+    # a comparison that raises (a node whose attributes were set to None) must not colour later comparisons of the same trees
+    if g["children"]:
+        B2 = A.copy()
+        victim = gtree.preorder(B2)[-1]
+        saved = victim.attributes
+        victim.attributes = None
+        for u_, v_ in ((A, B2), (B2, A)):
+            try:
+                Node.is_equal(u_, v_)
+            except Exception:  # noqa
+                pass
+        victim.attributes = dict(saved, zzExtra="1")
+        n_pairs += 1
+        r1, r2 = eq(A, B2), eq(B2, A)
+        if r1 is not False or r2 is not False:
+            acc.add_problem(problem("difference_not_detected", dict(case0, difference="attribute added after a comparison that raised"),
+                                    expected=False, observed=[r1, r2], difference_="after-raise"))
     # the same mappings inserted in the opposite order: attributes, extras and namespace maps are mappings
     g_rev = gtree.clone(g)
     for _, n_ in gtree.walk(g_rev):
